@@ -475,6 +475,7 @@ var (
 		DetectPCF:    true,
 		DetectDocker: true,
 		AppTimeout:   config.Timeout(limits.DefaultAppTimeout),
+		WaitForPort:  3 * time.Second,
 	}
 )
 
